@@ -1,11 +1,12 @@
 (* C01 entry points of the extracted oracle and model. Written to coq/tt_c01.ml. *)
 From Coq Require Extraction ExtrOcamlBasic ExtrOcamlString.
 From Coq Require Import List Ascii String.
-Require Import TT.Model.Str TT.Model.Pipeline TT.Spec.TsLex TT.Spec.TsModule TT.Spec.TsObs TT.Spec.C01Wf TT.Model.C01Emit.
+Require Import TT.Model.Str TT.Model.Pipeline TT.Spec.TsLex TT.Spec.TsModule TT.Spec.TsObs TT.Spec.C01Wf TT.Spec.C01Lines TT.Model.C01Emit.
 Import ListNotations.
 
 (* the oracle alone: (accepted? (reasons..)) *)
-Definition c01_oracle (s : str) : sx := SL [sx_bool (c01_ok s); SL (map SA (c01_problems s))].
+(* the file text is first normalised for the ECMAScript line terminators U+2028 / U+2029 (Spec/C01Lines.v) *)
+Definition c01_oracle (s0 : str) : sx := let s := ls_norm s0 in SL [sx_bool (c01_ok s); SL (map SA (c01_problems s))].
 
 Definition hname (h : hclass) : sx :=
   sa (match h with HFn => "fn" | HTyName => "tyname" | HKey => "key" | HType => "type" | HStr _ => "str" | HZ => "zexpr" end).
@@ -15,7 +16,8 @@ Definition sx_bad (h : hclass * str) : sx :=
 (* one generated file against the model:
    (oracle-ok (reasons..) corr (leftover real tokens..) ((missing item tokens..)..) ((class hole-class text)..) lex-compositional
     n-real-tokens n-holes-used) *)
-Definition c01_file (g : c_cfg) (ss : list c_struct) (cmds : list c_cmd) (evs : list c_event) (f : fname) (real : str) : sx :=
+Definition c01_file (g : c_cfg) (ss : list c_struct) (cmds : list c_cmd) (evs : list c_event) (f : fname) (real0 : str) : sx :=
+  let real := ls_norm real0 in
   let cf := gen_file g ss cmds evs f in
   let rt := lex_module real in
   let '(lft, missing, used) := match_file cf rt in
